@@ -137,6 +137,20 @@ pub fn run(p: &Prog, cfg: &Cfg, rep: &mut Report) {
                         }
                     }
                 }
+                // the contract-level message of the kind is a message type too: it answers to
+                // the same name and body
+                if h.kind.is_enum() {
+                    if let Some(w) = p.wrappers.get(&h.kind) {
+                        let t = serde_json::to_string(&expected).unwrap();
+                        if let Err(e) = w.from_json(t.as_bytes()) {
+                            return Err(viol(
+                                format!("wrapper-reject:{}", h.kind.attr()),
+                                "the contract-level message type rejects the JSON named by the method signature",
+                                json!({"handler": h.id, "text": t, "error": e}),
+                            ));
+                        }
+                    }
+                }
                 Ok(())
             },
         );
